@@ -133,6 +133,9 @@ func (r *Runtime) string_fromcodepoint(call FunctionCall) Value {
 	var sb StringBuilder
 	for _, arg := range call.Arguments {
 		num := arg.ToNumber()
+		if num == _negativeZero {
+			num = _positiveZero
+		}
 		var c rune
 		if numInt, ok := num.(valueInt); ok {
 			if numInt < 0 || numInt > utf8.MaxRune {
